@@ -1713,6 +1713,15 @@ def oracle_reuse(scn, res):
     return v
 
 
+def oracle_aggregates(scn, res):
+    """what a returned aggregate reports about itself (checked by the driver against its members)"""
+    v = []
+    for ci, a in enumerate(res["calls"]):
+        if "AGGREGATE-MISMATCH" in a["out"]:
+            v.append((ci, "aggregate/status-differs-from-members", a["out"][-60:]))
+    return v
+
+
 def oracle_endpoints(scn, res):
     """C06: each transfer that reaches its data phase uses exactly one data connection, which arrives at the port the
     peer announced (passive) / which the peer could open to the endpoint the client advertised, an address of the
@@ -1819,7 +1828,7 @@ def fam_dispatch(rng, n, dist):
     return out
 
 
-ORACLES.update(tls=oracle_tls, reuse=oracle_reuse, endpoints=oracle_endpoints)
+ORACLES.update(tls=oracle_tls, reuse=oracle_reuse, endpoints=oracle_endpoints, aggregates=oracle_aggregates)
 
 FAMILIES = dict(linelen=lambda r, n, d, th: fam_linelen(r, n, d), tlsplain=lambda r, n, d, th: fam_tlsplain(r, n, d), mixed=lambda rng, n, dist, th: gen_mixed(rng, "quick", dist, n), observers=lambda r, n, d, th: fam_observers(r, n, d),
                 abor=lambda r, n, d, th: fam_abor(r, n, d), downloads=fam_downloads, uploads=fam_uploads, ascii=fam_ascii, faults=fam_faults,
@@ -1831,14 +1840,14 @@ FAMILIES = dict(linelen=lambda r, n, d, th: fam_linelen(r, n, d), tlsplain=lambd
 # ---------------------------------------------------------------------------------------------- the checks
 PROPS = {
     # id: families with their share of the scenario budget, correspondence projections, oracles
-    "C02": dict(fam=[("mixed", 5), ("abor", 2), ("refusals", 1), ("tls", 1)], proj=["out", "state", "wire"], oracles=["lockstep", "abor_order"]),
+    "C02": dict(fam=[("mixed", 5), ("abor", 2), ("refusals", 1), ("tls", 1)], proj=["out", "state", "wire"], oracles=["lockstep", "abor_order", "aggregates"]),
     "C09": dict(fam=[("args", 4), ("mixed", 2), ("reconnect", 2), ("linelen", 1)], proj=["out", "wire"], oracles=["commands"]),
-    "C10": dict(fam=[("mixed", 6), ("args", 1), ("refusals", 1), ("tls", 2), ("typefault", 1)], proj=["out", "state", "wire"], oracles=["commands", "state"]),
+    "C10": dict(fam=[("mixed", 6), ("args", 1), ("refusals", 1), ("tls", 2), ("typefault", 1)], proj=["out", "state", "wire"], oracles=["commands", "state", "aggregates"]),
     "C14": dict(fam=[("observers", 5), ("mixed", 2)], proj=["out", "obs"], oracles=["observers", "terminates", "commands"], variant="asan"),
     "C03": dict(fam=[("downloads", 6), ("mixed", 1), ("ascii", 1)], proj=["out", "io"], oracles=["transfers"]),
     "C04": dict(fam=[("uploads", 6), ("mixed", 1), ("ascii", 1)], proj=["out", "io", "wire"], oracles=["transfers"]),
-    "C07": dict(fam=[("refusals", 6), ("mixed", 1)], proj=["out", "io", "held", "wire"], oracles=["transfers", "sockets", "lockstep"]),
-    "C12": dict(fam=[("cancel", 5), ("mixed", 1), ("uploads", 1)], proj=["out", "io", "wire"], oracles=["transfers", "commands", "lockstep", "abor_order"]),
+    "C07": dict(fam=[("refusals", 6), ("mixed", 1)], proj=["out", "io", "held", "wire"], oracles=["transfers", "sockets", "lockstep", "aggregates"]),
+    "C12": dict(fam=[("cancel", 5), ("mixed", 1), ("uploads", 1)], proj=["out", "io", "wire"], oracles=["transfers", "commands", "lockstep", "abor_order", "aggregates"]),
     "C17": dict(fam=[("mixed", 3), ("refusals", 1), ("cancel", 1), ("reconnect", 1), ("tls", 2)], proj=["out", "held"], oracles=["sockets"]),
     "C11": dict(fam=[("tls", 6), ("reconnect", 1), ("tlsplain", 1)], proj=["out", "state", "wire"], oracles=["tls", "commands"], n=(90, 500)),
     "C13": dict(fam=[("reconnect", 6), ("tls", 1)], proj=["out", "state", "held", "wire"], oracles=["state", "sockets", "lockstep", "tls"], n=(120, 600)),
